@@ -51,6 +51,15 @@ type recD[G any] struct {
 	Val   float64 `shp:"value"`
 	Name  string  `shp:"label"`
 }
+
+// recE: every field's Go name is another field's column name (tags form a cycle over the names): a decoder that looks a
+// field up by its Go name before its tag reads another column
+type recE[G any] struct {
+	Shape G
+	Count int     `shp:"total"`
+	Total float64 `shp:"name"`
+	Name  string  `shp:"count"`
+}
 type recB[G any] struct {
 	S string
 	G G
@@ -110,6 +119,9 @@ func gen(t *rapid.T) Case {
 	c.Layout = rapid.SampledFrom([]string{"A", "B", "C"}).Draw(t, "layout")
 	if c.API == "struct" && rapid.IntRange(0, 3).Draw(t, "crossapi") == 2 {
 		c.Layout = "D" // written with the field-based API, read into a struct whose tags match no column but whose field names do
+	}
+	if c.API == "struct" && c.Layout != "D" && rapid.IntRange(0, 4).Draw(t, "crossnames") == 3 {
+		c.Layout = "E" // tags and Go field names form a cycle: the tag has to win over the name
 	}
 	c.DecodeAs = rapid.SampledFrom([]string{"concrete", "iface"}).Draw(t, "decodeas")
 	c.Reuse = rapid.Bool().Draw(t, "reuse")
@@ -230,6 +242,39 @@ func structRT[GE any, GD any](c Case, file string, conv func(vkit.GJ) GE) ([]got
 			}
 			g, _ := any(rec.Shape).(geom.Geom)
 			out = append(out, got{g: g, i: rec.Count, f: rec.Val, s: rec.Name})
+		}
+		if err := d.Error(); err != nil {
+			return out, "Decoder.Error: " + err.Error()
+		}
+	case "E":
+		e, err := gshp.NewEncoder(file, recE[GE]{})
+		if err != nil {
+			return nil, "NewEncoder: " + err.Error()
+		}
+		for k, r := range c.Recs {
+			if err := e.Encode(recE[GE]{Shape: conv(r.G), Count: r.I, Total: r.F, Name: r.S}); err != nil {
+				e.Close()
+				return nil, fmt.Sprintf("Encode record %d: %v", k, err)
+			}
+		}
+		e.Close()
+		d, err := gshp.NewDecoder(file)
+		if err != nil {
+			return nil, "NewDecoder: " + err.Error()
+		}
+		defer d.Close()
+		var shared recE[GD]
+		for {
+			var fresh recE[GD]
+			rec := &fresh
+			if c.Reuse {
+				rec = &shared
+			}
+			if !d.DecodeRow(rec) {
+				break
+			}
+			g, _ := any(rec.Shape).(geom.Geom)
+			out = append(out, got{g: g, i: rec.Count, f: rec.Total, s: rec.Name})
 		}
 		if err := d.Error(); err != nil {
 			return out, "Decoder.Error: " + err.Error()
@@ -526,7 +571,7 @@ func TestProp(t *testing.T) {
 		Rule: "rapid: files of 0-8 (10%: 9-40) records of one shape type (Point, MultiPoint, LineString, MultiLineString with 1-5 parts, Polygon with 1-5 rings closed or " +
 			"unclosed, *Bounds), finite coordinates from bit patterns; attributes: ints within the 10-character field (wider ones must be refused by Encode), float64 " +
 			"|v|<1e18, strings of 0-50 bytes (ASCII, inner blanks, quotes, UTF-8) without NUL and without leading/trailing blanks (not representable in DBF). Both APIs: " +
-			"struct-based with three record layouts (string last with tags, string first untagged with pointer records, two strings with mixed-case tags and names; a fourth layout is written with the field-based API under the Go field names and read into a struct whose tags name no column, so that the match must come from the field name; geometry " +
+			"struct-based with three record layouts (string last with tags, string first untagged with pointer records, two strings with mixed-case tags and names; a fourth layout is written with the field-based API under the Go field names and read into a struct whose tags name no column, so that the match must come from the field name; a fifth layout has tags that are the Go names of other fields, so that the tag has to win over the name; geometry " +
 			"field decoded either as the concrete type or as geom.Geom; rows decoded into a fresh record or into one reused record variable) and field-based (NewEncoderFromFields/EncodeFields/DecodeRowFields, names matched in either case). " +
 			"The geometries handed to the encoder have their point lists cut out of one flat array (consecutive sub-slices with spare capacity), which must come back unchanged. Oracle: same number and order of records, coordinates bit-identical with line strings as parts, rings in stored order with unclosed rings closed, boxes as 5-vertex " +
 			"rectangles; ints equal, strings equal, floats within 5.1e-11; Decoder.Error nil. Non-trivial = >=2 records with string attributes of different lengths, or a multi-part geometry. Distinct by case hash.",
